@@ -59,6 +59,8 @@ func main() {
 	r.Assume("the reference evaluator was cross-checked at construction time against SQLite 3.40 on the common fragment (17 600 generated queries, the only disagreement being a SQLite RIGHT JOIN defect)")
 	r.Assume("six of every seven databases carry queries with <= 2 tables per FROM list and subquery depth <= 1; every seventh goes to <= 4 tables and depth <= 3 (DESIGN 1.3)")
 	r.Assume("excluded by construction: division, floats, AVG outside the select list, implicit string<->number comparison, string literals compared with anything but a column, LIMIT without a total order, arithmetic mixing SUM(INT) with decimals, int column vs fractional literal (F10/F11)")
+	r.Assume("input classes excluded from the core domain because of known findings (via=domain in findings/C02.txt; a new break confined to one of them is not seen, only its pinned witness is replayed): HAVING over an aggregate of a non-first table or over an expression key; ORDER BY <alias of an expression> in a grouped query with HAVING; SELECT DISTINCT sorted by ordinal; NULL literal / NULL-only expression as the item of an IN subquery; COALESCE over DECIMALs of different scale; a subquery leaf predicate referencing outer columns only; DECIMAL values of different scale (or INT vs BOOLEAN, DECIMAL vs SUM) in IN-subqueries, set operations, DISTINCT and comparisons; INT = DECIMAL column equality; secondary indexes led by a DECIMAL column; constant-false ON in a block with or inside a subquery; an inner / cross / right join after an outer join; x BETWEEN col AND col inside ON")
+	r.Extra("excluded_input_classes", []string{"having-scope-table-not-found", "having-orderby-alias-false-error", "distinct-orderby-ordinal", "in-subquery-null-literal-item", "coalesce-decimal-args-forced-to-one-scale", "subquery-outer-only-conjunct-hoisted", "hash-equality-decimal-scale", "lookup-join-int-index-decimal-key-rounded", "decimal-compare-right-operand-rounded-to-left-scale", "decimal-index-not-equal-drops-filter", "constant-false-on-with-subquery", "inner-join-on-nullable-side-conjunct-lost", "join-after-outer-join-filter-misplaced", "range-heap-join-drops-where-filter"})
 	if r.Replay != "" {
 		replay(r, r.Replay)
 		r.Finish()
